@@ -8,6 +8,8 @@ import (
 var (
 	errUnexpectedRequest  = errors.New("unexpected request structure")
 	errUnexpectedResponse = errors.New("unexpected response structure")
+
+	errUnexpectedTimestamps = errors.New("response received before request transmitted")
 )
 
 func ValidateResponseMetadata(resp *Packet) error {
@@ -30,7 +32,10 @@ func ValidateResponseMetadata(resp *Packet) error {
 
 func ValidateResponseTimestamps(t0, t1, t2, t3 time.Time) error {
 	if t3.Sub(t0) < 0 {
-		panic("unexpected system clock behavior")
+		// possible without any clock trouble: t0 is a clock reading taken after
+		// the fact when no kernel tx timestamp could be read, and the response
+		// may have been received (and rx timestamped) before that
+		return errUnexpectedTimestamps
 	}
 	if t2.Sub(t1) < 0 {
 		return errUnexpectedResponse
